@@ -87,7 +87,19 @@ func (p *poller) addConn(c *Conn) error {
 		p.g.onUDPListen(c)
 	}
 	verifPoint("addConn.afterOnOpen", c)
-	p.g.connsUnix[fd] = c
+	// Stop closes the connections it finds in the table: either this one is
+	// in the table before Stop takes its snapshot, or it sees the flag here.
+	p.g.mux.Lock()
+	stopped := p.g.shutdown
+	if !stopped {
+		p.g.connsUnix[fd] = c
+	}
+	p.g.mux.Unlock()
+	if stopped {
+		err := errors.New("engine stopped")
+		_ = c.closeWithError(err)
+		return err
+	}
 	err := p.addRead(fd)
 	if err != nil {
 		p.g.connsUnix[fd] = nil
@@ -118,8 +130,20 @@ func (p *poller) addDialer(c *Conn) error {
 		_ = c.closeWithError(err)
 		return err
 	}
+	p.g.mux.Lock()
+	stopped := p.g.shutdown
+	if !stopped {
+		p.g.connsUnix[fd] = c
+	}
+	p.g.mux.Unlock()
+	if stopped {
+		// the error is returned to the dialer, which does the accounting.
+		err := errors.New("engine stopped")
+		c.onConnected = nil
+		_ = c.closeWithError(err)
+		return err
+	}
 	c.p = p
-	p.g.connsUnix[fd] = c
 	c.isWAdded = true
 	err := p.addReadWrite(fd)
 	if err != nil {
